@@ -363,6 +363,11 @@ func runReceivers(r *engine.Run) {
 		{"local", func(m, recv, args string) string {
 			return "(function(f){ return f(" + args + "); })(String.prototype." + m + ")"
 		}},
+		// a plain call through a global variable: the reference's base is the global object
+		// environment record, whose ImplicitThisValue is undefined (10.2.1.2.6, 11.2.3 step 6.b)
+		{"globalvar", func(m, recv, args string) string {
+			return "(__gf = String.prototype." + m + ", __gf(" + args + "))"
+		}},
 	}
 	argSets := []struct{ name, src string }{{"noargs", ""}, {"args", `"e", 1`}}
 	for _, m := range append(append([]string{}, genericMethods...), "substr") {
@@ -377,7 +382,7 @@ func runReceivers(r *engine.Run) {
 					}
 				}
 				for _, d := range deliveries {
-					if d.name == "local" && recv != "undefined" {
+					if (d.name == "local" || d.name == "globalvar") && recv != "undefined" {
 						continue
 					}
 					key := "reject/" + m + "/" + d.name + "/" + recv + "/" + as.name
